@@ -27,14 +27,20 @@ ID = "C04"
 LEVEL = "proof"
 ENGINES = ["lean-model", "purediff"]
 LEVEL_TEXT = (
-    "Lean theorems for ALL bodies (mutual structural induction over J, no depth bound): diff_self_empty, "
-    "diff_empty_iff (diff a b = [] iff a, b equal under Python == modulo null-valued object keys), apply_diff, "
-    "reduce exactness for every field path, essence invariance under own writes (annotations under marked/own "
-    "prefixes, the last-handled keys, status, system metadata, finalizers) and injectivity on the projected part; "
-    "clauses not finished are named *_partial in Kopf/Props/C04.lean with the missing part stated. "
-    "bool-vs-int (True == 1) is part of the model and a proved witness (known finding F7). "
-    "Tie: differential run of the real diffs.diff/reduce, DiffBaseStorage.build, ProgressStorage.clear "
-    "(real constructors) against the model on generated bodies/configurations/field paths.")
+    "Lean theorems for ALL well-formed JSON values (mutual structural induction over J, no depth/size bound), full strength: "
+    "diff_self_empty; diff_empty_iff (diff a b = [] iff a ≈ b, ≈ = Python == modulo null-valued object keys); apply_diff "
+    "(applyDiff (diff a b) a ≈ b); reduce_exact (reduce (diff a b) path = diff (a at path) (b at path), as lists, every path) with "
+    "corollaries reduce_apply / reduce_empty_iff; essence, every storage configuration and body: status_invisible, "
+    "system_metadata_invisible / finalizers_invisible, marked_annotation_invisible (own and other operators' annotations under a "
+    "marked prefix: set/change/remove), payload_exact + essence_injective_on_payload + payload_change_detected (with WF of the two "
+    "essences as hypothesis), ordinary_annotation_kept / marked_annotation_dropped (filter level). Proved negations with witnesses: "
+    "bool_int_witness (F7), extra_status_witness (F8), multi_drs_witness (F9), marker_first_write_witness, null_absent_witness. "
+    "NOT proved in Lean (tie + oracle only, listed at the end of Props/C04.lean): own keys under an unmarked custom prefix "
+    "(exact-key / progress.clear route) and the absent->present transition of metadata.annotations at essence level; label and "
+    "annotation changes reaching the diff at essence level; WF of the essence. "
+    "Tie: differential run of the real diffs.diff/reduce, DiffBaseStorage.build (+Annotations/Status/Multi), ProgressStorage.clear "
+    "(Annotations/Status/NoWrite/Multi/Smart), built with the real constructors, against the model; the Lean applier and ≈ are tied "
+    "to the oracle's Python applier and equivalence as well.")
 TIE = "D (differential: real diff/reduce/build/clear vs. the Lean model) + constants read from the AST"
 THEOREMS: list[tuple[str, str]] = []     # filled below from THEOREM_NAMES
 RULE = ("seeded, type-directed: Kubernetes-shaped bodies (nesting <= 5, empty containers, nulls, unicode keys/values, "
